@@ -5,4 +5,5 @@ let table : (string * (Model.sx -> Model.sx)) list = [
   "f64", Model.run_f64;
   "simple", Model.run_simple;
   "helper", Model.run_helper;
+  "h14", Model.run_h14;
 ]
